@@ -93,6 +93,21 @@ def check_parse_result(exp, line, diffs, aspects, pol, clean=True):
         diffs.append(("stdout", "%d stray byte(s) on standard output" % line["out"]))
 
 
+def ptrs_in(sec):
+    out = []
+    for o in sec["o"]:
+        if o["ty"] == "ptr":
+            out += list(o["v"])
+        elif o["ty"] == "sec":
+            for s in o["v"]:
+                out += ptrs_in(s)
+    return out
+
+
+def clean_all(b):
+    return all(p["exp"]["status"] in ("ok", "fail") for p in b["parses"])
+
+
 def replay(verdict, exe, res, aspects, pol=None, seed=0, renderings=("canonical",), tag="parse",
            maxbeh=None, sigprefix="parse"):
     """Replay every behaviour of a TLC run; record violations in verdict.
@@ -146,6 +161,16 @@ def replay(verdict, exe, res, aspects, pol=None, seed=0, renderings=("canonical"
                                   "%s :: %s" % (desc, "; ".join(d for _, d in diffs[:6])),
                                   dict(replay_obj, observed=line, expected=p["exp"]))
                 break
+        if "freed" in aspects and b["parses"] and b["parses"][-1]["exp"]["status"] != "unspec" and clean_all(b):
+            # cfg_free hands every pointer still stored to the release callback exactly once
+            fl = [l for l in g["lines"] if l["cmd"] == "free"]
+            want = sorted(ptrs_in(b["parses"][-1]["exp"]["obs"]))
+            got = sorted("ptr%d" % c["id"] for l in fl for c in l["cb"] if c["k"] == "free")
+            dbl = [c for l in fl for c in l["cb"] if c["k"] == "free" and c.get("double")]
+            if dbl or want != got:
+                verdict.violation("%s:freed-at-free:%s" % (sigprefix, desc),
+                                  "%s :: cfg_free released %s, the store held %s%s" % (desc, got, want, " (double release)" if dbl else ""),
+                                  replay_obj)
         if "balance" in aspects and g["end"] is not None:
             b0, e0 = g["begin"], g["end"]
             probs = []
